@@ -1,4 +1,9 @@
-From V Require Import Base.Bytes Base.Obs Base.Val Model.Stack Model.Truthy Model.Loops.
-Record case := { c_data : val; c_tpl : tpl }.
+From V Require Import Base.Bytes Base.Obs Base.Val Model.Stack Model.Truthy Model.Loops Model.ForHead.
+Inductive case :=
+| CNest (c_data : val) (c_tpl : tpl)      (* a loop nest rendered on data *)
+| CHead (s : bytes).                       (* the head of a v-for alone (eval_for.go:parseFor) *)
 Definition run (c : case) : obs :=
-  OL (map (fun r : record => OL (ON (fst r) :: map OA (snd r))) (fst (Loops.run (init_stack (c_data c)) (c_tpl c)))).
+  match c with
+  | CNest d t => OL (map (fun r : record => OL (ON (fst r) :: map OA (snd r))) (fst (Loops.run (init_stack d) t)))
+  | CHead s => match parse_for s with Some (vs, coll) => OL [OS "ok"; OL (map OA vs); OA coll] | None => OL [OS "error"] end
+  end.
